@@ -30,7 +30,7 @@ def sh(cmd, cwd=None, env=None, timeout=3600):
     return p.returncode, p.stdout
 
 
-def adopt(pid, n, src=None):
+def adopt(pid, n, src=None, store_as=None):
     src = Path(src or f"/tmp/seed_out/{pid}")
     patch, demo = src / f"patch{n}.diff", src / f"demo{n}.py"
     if not patch.exists() or not demo.exists():
@@ -63,7 +63,7 @@ def adopt(pid, n, src=None):
     if not ok:
         print("demo with patch output tail:", o1[-500:] if 'o1' in dir() else "")
         return 1
-    d = SEEDED / f"{pid}-{n}"
+    d = SEEDED / f"{pid}-{store_as or n}"
     d.mkdir(parents=True, exist_ok=True)
     shutil.copy(patch, d / "patch.diff")
     shutil.copy(demo, d / "demo.py")
